@@ -128,6 +128,16 @@ func runC16(c *Ctx) {
 			if in1 != specIn {
 				c.violation("v1compat IsContainedIn differs from NATS matching semantics", map[string]interface{}{"subject": s, "other": o, "impl": in1, "spec": specIn, "lib": "v1compat"})
 			}
+			// the list-level query built on containment: is the subject contained in some export of the list (a null
+			// entry, an unrelated export and the export in question)
+			exs := jwt.Exports{nil, &jwt.Export{Subject: "zz.unrelated.literal", Type: jwt.Stream}, &jwt.Export{Subject: jwt.Subject(o), Type: jwt.Service}}
+			if has := exs.HasExportContainingSubject(jwt.Subject(s)); has != specIn {
+				c.violation("v2 Exports.HasExportContainingSubject differs from containment in the export's subject", map[string]interface{}{"subject": s, "export": o, "impl": has, "spec": specIn, "lib": "v2"})
+			}
+			ex1 := v1.Exports{&v1.Export{Subject: "zz.unrelated.literal", Type: v1.Stream}, &v1.Export{Subject: v1.Subject(o), Type: v1.Service}}
+			if has := ex1.HasExportContainingSubject(v1.Subject(s)); has != specIn {
+				c.violation("v1compat Exports.HasExportContainingSubject differs from containment in the export's subject", map[string]interface{}{"subject": s, "export": o, "impl": has, "spec": specIn, "lib": "v1compat"})
+			}
 			if wc2 != specWc {
 				c.violation("v2 HasWildCards differs from 'matches more than one subject'", map[string]interface{}{"subject": s, "impl": wc2, "spec": specWc, "lib": "v2"})
 			}
